@@ -547,6 +547,12 @@ func toForStmt(forPos token.Pos, value ast.Expr, body *ast.BlockStmt, re *ast.Ra
 			initRhs = append(initRhs, re.Expr3)
 		}
 	}
+	condOp := token.LSS
+	if u, ok := re.Expr3.(*ast.UnaryExpr); ok && u.Op == token.SUB {
+		if _, lit := u.X.(*ast.BasicLit); lit { // a negative literal step counts down: 5:0:-1
+			condOp = token.GTR
+		}
+	}
 	if tok == token.ASSIGN && replaceValue {
 		oldValue := value
 		value = &ast.Ident{NamePos: forPos, Name: "_gop_k"}
@@ -581,7 +587,7 @@ func toForStmt(forPos token.Pos, value ast.Expr, body *ast.BlockStmt, re *ast.Ra
 		Cond: &ast.BinaryExpr{
 			X:     value,
 			OpPos: re.To,
-			Op:    token.LSS,
+			Op:    condOp,
 			Y:     cond,
 		},
 		Post: &ast.AssignStmt{
